@@ -45,8 +45,12 @@ def _serialize_ds9(regions, precision=8):
         region_meta.pop('tag', None)  # "tag" cannot be in global metadata
         all_meta.append(region_meta)
 
-    global_meta = dict(set.intersection(*[set(meta_dict.items())
-                                          for meta_dict in all_meta]))
+    common_meta = set.intersection(*[set(meta_dict.items())
+                                     for meta_dict in all_meta])
+    # keep the (deterministic) key order of the first region rather than
+    # the arbitrary iteration order of a set
+    global_meta = {key: val for key, val in all_meta[0].items()
+                   if (key, val) in common_meta}
     if global_meta:
         output += f'global {_make_meta_str(global_meta)}\n'
 
